@@ -119,10 +119,22 @@ REVIEW2 = {
  "X2_revert_shutdown_task_manager_override": [("ipv8/requestcache.py", "            self._identifiers.clear()\n        await super().shutdown_task_manager()\n", "            pass\n        await super().shutdown_task_manager()\n")],
 }
 
+REFACTORS3 = {
+ "H11_pop_inverted_isinstance": [("ipv8/requestcache.py", "        if isinstance(prefix, str):\n            identifier = self._create_identifier(number, prefix)\n            cache = self._identifiers.pop(identifier)\n            self.cancel_pending_task(cache)\n            return cache\n        return self.pop(prefix.name, number)\n", "        if not isinstance(prefix, str):\n            return self.pop(prefix.name, number)\n        identifier = self._create_identifier(number, prefix)\n        cache = self._identifiers.pop(identifier)\n        self.cancel_pending_task(cache)\n        return cache\n")],
+ "H12_extracted_cancel_helper": [
+   ("ipv8/requestcache.py", "                self._logger.warning(\"Dropping %s due to shutdown!\", str(cache))\n                for f, _ in cache.managed_futures:\n                    f.cancel()\n                return None", "                self._logger.warning(\"Dropping %s due to shutdown!\", str(cache))\n                self._cancel_managed_futures(cache)\n                return None"),
+   ("ipv8/requestcache.py", "            for cache in self._identifiers.values():\n                # Cancel all managed futures, and suppress the CancelledErrors\n                for future, _ in cache.managed_futures:\n                    future.cancel()\n", "            for cache in self._identifiers.values():\n                self._cancel_managed_futures(cache)\n"),
+   ("ipv8/requestcache.py", "    def _create_identifier(self, number: int, prefix: str) -> str:\n", "    def _cancel_managed_futures(self, cache: NumberCache) -> None:\n        for future, _ in cache.managed_futures:\n            future.cancel()\n\n    def _create_identifier(self, number: int, prefix: str) -> str:\n"),
+ ],
+ "H13_has_via_get": [("ipv8/requestcache.py", "        if isinstance(prefix, str):\n            return self._create_identifier(number, prefix) in self._identifiers\n        return self.has(prefix.name, number)\n", "        return self.get(prefix, number) is not None\n")],
+ "M5b_has_negated": [("ipv8/requestcache.py", "            return self._create_identifier(number, prefix) in self._identifiers\n", "            return self._create_identifier(number, prefix) not in self._identifiers\n")],
+}
+
 ALL = {k: [v] for k, v in MUTS_SINGLE.items() if v[1] != "RENAME"}
 ALL.update(REFACTORS)
 ALL.update(REVIEW)
 ALL.update(REVIEW2)
+ALL.update(REFACTORS3)
 
 
 def run(name):
